@@ -35,7 +35,7 @@ import deep.logging
 from deep.api.tracepoint.eventsnapshot import WATCH_SOURCE_CAPTURE
 from deep.logging import logging
 from deep.api.tracepoint import WatchResult, Variable
-from deep.processor.variable_set_processor import VariableSetProcessor
+from deep.processor.variable_set_processor import VariableSetProcessor, VariableCacheProvider
 from deep.utils import str2bool
 
 if TYPE_CHECKING:
@@ -56,6 +56,8 @@ class ActionContext(abc.ABC):
         self.trigger_context: 'TriggerContext' = parent
         self.location_action: 'LocationAction' = action
         self._triggered = False
+        # each action collects into its own variable set, so the results of one action cannot affect another
+        self.var_cache = VariableCacheProvider()
 
     def __enter__(self):
         """Enter and open the context."""
@@ -74,7 +76,7 @@ class ActionContext(abc.ABC):
         :param watch: The watch expression to evaluate.
         :return: Tuple with WatchResult, collected variables, and the log string for the expression
         """
-        var_processor = VariableSetProcessor({}, self.trigger_context.var_cache)
+        var_processor = VariableSetProcessor({}, self.var_cache)
 
         try:
             result = self.trigger_context.evaluate_expression(watch)
@@ -93,7 +95,7 @@ class ActionContext(abc.ABC):
         :param variable: the value to process
         :return: Tuple with WatchResult, collected variables, and the log string for the expression
         """
-        var_processor = VariableSetProcessor({}, self.trigger_context.var_cache)
+        var_processor = VariableSetProcessor({}, self.var_cache)
         variable_id, log_str = var_processor.process_variable(name, variable)
 
         return WatchResult(WATCH_SOURCE_CAPTURE, name, variable_id), var_processor.var_lookup, log_str
